@@ -12,6 +12,16 @@ from . import common as cm
 from . import c17_gen as G
 from .c17_impl import impl_case          # noqa: F401  (entry point of the workers)
 
+ANCHORS = ["pyflyby._saveframe:_validate_frames", "pyflyby._saveframe:_get_all_matching_frames",
+           "pyflyby._saveframe:_get_frames_to_save", "pyflyby._saveframe:_get_all_frames_from_exception_obj",
+           "pyflyby._saveframe:_is_variable_name_valid", "pyflyby._saveframe:_validate_variables",
+           "pyflyby._saveframe:_validate_saveframe_arguments", "pyflyby._saveframe:_get_frame_local_variables_data",
+           "pyflyby._saveframe:_get_frame_metadata", "pyflyby._saveframe:_open_file",
+           "pyflyby._saveframe:_get_exception_info",
+           "pyflyby._saveframe:_save_frames_and_exception_info_to_file", "pyflyby._saveframe:saveframe",
+           "pyflyby._saveframe_reader:SaveframeReader.variables", "pyflyby._saveframe_reader:SaveframeReader.get_metadata",
+           "pyflyby._saveframe_reader:SaveframeReader.get_variables"]
+
 REQ = ["Saveframe.Select", "Saveframe.Vars", "Saveframe.File", "Saveframe.Save", "Saveframe.Reader", "Saveframe.Wire"]
 
 FIELD_CTOR = {"frame_index": "(MFrame FIndex)", "filename": "(MFrame FFilename)", "lineno": "(MFrame FLineno)",
@@ -503,7 +513,8 @@ def check_cases(ctx, cases, impl, model):
 
 
 def run(ctx):
-    n = 600 if ctx.quick else 30000
+    cm.check_anchors(ctx, ANCHORS)
+    n = (600 if ctx.quick else 30000) * ctx.scale
     ctx.coverage["rule"] = (
         "cases from one seeded PRNG (case i replays from (seed, i)): a generated multi-module program (functions, methods, closures, "
         "recursion, a shared trampoline, try/except re-raising with `from e` / implicit context / `from None` / a handler that calls a "
